@@ -132,7 +132,9 @@ func (s *RegionSyncer) StartSyncWithLeader(addr string) {
 	go func() {
 		defer s.wg.Done()
 		// used to load region from kv storage to cache storage.
-		err := s.server.GetStorage().LoadRegionsOnce(s.server.GetBasicCluster().CheckAndPutRegion)
+		err := s.server.GetStorage().LoadRegionsOnce(func(region *core.RegionInfo) []*core.RegionInfo {
+			return s.server.GetBasicCluster().CheckAndPutLoadedRegion(region, s.server.GetStorage().SaveRegion)
+		})
 		if err != nil {
 			log.Warn("failed to load regions.", errs.ZapError(err))
 		}
